@@ -794,6 +794,18 @@ fn gen_trace(w: &mut SessWorker, rng: &mut Rng, res: &mut ExecResult) -> Option<
         big_output = json!({"line": line, "expected": expected});
     }
 
+    // many prints: 1 030 - 3 000 consecutive marker prints in ONE input (more printed lines than
+    // any fixed-size queue of pending output holds); ordinary markers for the model
+    if !no_prelude && rng.chance(0.04) {
+        let n = rng.range(1030, 3000) as usize;
+        let positions: Vec<usize> = (0..=lines.len()).filter(|i| *i == 0 || !lines[*i - 1].starts_with('@')).collect();
+        let at = *rng.pick(&positions);
+        for i in 0..n {
+            lines.insert(at + i, format!("print(\"mk-{}\")", 100_000 + i));
+        }
+        res.bump("probe.many_prints_case");
+    }
+
     // blank lines (an empty -e argument / an empty line in the file)
     if rng.chance(0.2) {
         let positions: Vec<usize> = (0..=lines.len()).filter(|i| *i == 0 || !lines[*i - 1].starts_with('@')).collect();
